@@ -244,7 +244,7 @@ def _small_shard(arg):
         rec.case({k: case[k] for k in ("kind", "depth", "width", "max_count", "num_reserved")} | {"a": case["a"][:8], "b": case["b"][:8], "nar": case["nar"]},
                  nt > 0, [f"small_{case['kind']}", f"shape={case['depth']}x{case['width']}"])
 
-    common.run_given(test, common.derive_seed(seed, "C09", shard), n_examples, holder, rec)
+    common.run_given(test, common.derive_seed(seed, "C09", shard), n_examples, holder, rec, retry=run_small)
     return rec
 
 
